@@ -464,6 +464,7 @@ def monitor_c16(script):
     ready = False
     hung = False
     hung_bh = None
+    ended = False
 
     def hit(sig, text):
         hits.append((sig, text))
@@ -496,7 +497,7 @@ def monitor_c16(script):
                 hit("request-refused-while-idle", "RequestHeaders refused as busy although no request is outstanding")
         elif verb == "blockstate":
             b = o.get("busy")
-            if b in ("0", "1") and (b == "1") != (out is not None):
+            if not ended and b in ("0", "1") and (b == "1") != (out is not None):
                 hit("busy-misreported", f"IsBusy={b} while the outstanding request is {out[152:160] if out else None}")
         elif verb == "cancelblock":
             r = o.get("started")
@@ -511,6 +512,8 @@ def monitor_c16(script):
                     hit("cancel-misreports-started", f"CancelBlockRequest returned started={r} but the handler {'is running' if running else 'is not running'}")
             if mine and r in ("0", "1", "hung"):
                 cancelled = True
+            if o.get("closed") == "1":
+                ended = True   # an in-progress cancel ends the connection
         elif verb in ("msg", "ext") and a.get("cmd") == "block" and out is not None and not any(k in a for k in ("len", "cut", "nob", "hlen", "ck", "magic")):
             p = _payload(a)
             if p[:80].hex() == out:
@@ -545,7 +548,7 @@ def monitor_c16(script):
             if n >= 1 and bh[0]:
                 hit("onstop-spurious", "onStop invoked although the block handler had been started (two terminal signals)")
             if bh[0] and bh[3] == "run":
-                hit("handler-left-running", f"the connection is gone and Run returned but the block handler is still waiting on its channel ({o.get('bh')})")
+                hit("block-handler-left-running", f"the connection is gone and Run returned but the block handler is still waiting on its channel ({o.get('bh')})")
             break
     return hits
 
